@@ -112,6 +112,21 @@ RouteMon(p, s, k, b) ==
     /\ Log([a |-> "RouteMon", p |-> p, stage |-> s, pfx |-> k[1], pid |-> k[2], b |-> b,
             br |-> IF b = "none" THEN BD.b1 ELSE BD[b], listened |-> Listened(s)])
 
+(* Route Monitoring message whose UPDATE carries two NLRI of one view: both announced with the same attributes, or both *)
+(* withdrawn (each NLRI with its own path identifier on an add-path session)                                            *)
+RouteMonMulti(p, s, ks, b) ==
+    /\ conn = "up" /\ p \in up /\ Cardinality(ks) = 2
+    /\ LET v == PeerDef[p].vrf
+           rm == {Entry(p, s, k, adjIn[p][s][k]) : k \in {k \in ks : adjIn[p][s][k] # "none"}}
+           add == IF b = "none" THEN {} ELSE {Entry(p, s, k, b) : k \in ks}
+           t2 == [tbl EXCEPT ![v] = (@ \ rm) \cup add]
+       IN IF Listened(s)
+          THEN adjIn' = [adjIn EXCEPT ![p][s] = [k \in Keys(p) |-> IF k \in ks THEN b ELSE @[k]]] /\ tbl' = t2 /\ Follow(t2)
+          ELSE UNCHANGED <<adjIn, tbl, held>>
+    /\ UNCHANGED <<cfg, conn, up, seen, obs>>
+    /\ Log([a |-> "RouteMonMulti", p |-> p, stage |-> s, keys |-> {[pfx |-> k[1], pid |-> k[2]] : k \in ks}, b |-> b,
+            br |-> IF b = "none" THEN BD.b1 ELSE BD[b], listened |-> Listened(s)])
+
 (* Route Monitoring for a session that is not up (never announced or already down): nothing may be learned *)
 StrayRouteMon(p, s, k, b) ==
     /\ conn = "up" /\ p \notin up
@@ -170,6 +185,7 @@ Observe(v) ==
 Step == \/ Initiation
         \/ \E p \in Peers : PeerUp(p) \/ PeerDown(p)
         \/ \E p \in Peers, s \in Stages : \E k \in Keys(p), b \in Bundles \cup {"none"} : RouteMon(p, s, k, b)
+        \/ \E p \in Peers, s \in Stages : \E ks \in SUBSET Keys(p), b \in Bundles \cup {"none"} : RouteMonMulti(p, s, ks, b)
         \/ \E p \in Peers, s \in Stages : \E k \in Keys(p), b \in Bundles : StrayRouteMon(p, s, k, b)
         \/ \E p \in Peers, s \in Stages : Other(p, "eor", s)
         \/ \E p \in Peers : Other(p, "stats", "pre") \/ Other(p, "mirror", "pre")
